@@ -148,8 +148,55 @@ def _eff(rows):
     return (12 if rows is None else rows) // 2
 
 
+DERIVED = {
+    "Table() == 1": lambda T, V: T() == 1, "Table() != Table()": lambda T, V: T() != T(), "Table({}) < 5": lambda T, V: T({}) < 5,
+    "t == 1": lambda T, V: T({"a": [1, 2], "b": [3, 4]}) == 1, "t < [1, 4]": lambda T, V: T({"a": [1, 2], "b": [3, 4]}) < [1, 4],
+    "t == t.copy()": lambda T, V: T({"a": [1, 2]}) == T({"a": [1, 2]}), "~(t > 1)": lambda T, V: ~(T({"a": [1, 2, 3], "b": [4, 5, 6]}) > 1),
+    "empty join == 1": lambda T, V: T({"k": [1], "x": [2]}).inner_join(T({"k": [5], "y": [6]}), "k", "k") == 1,
+    "t[0:0] == 1": lambda T, V: T({"a": [1, 2]})[0:0] == 1, "t >= t": lambda T, V: (lambda t: t >= t)(T({"a": [1, None]})),
+    "v[0:0] == v[0:0]": lambda T, V: V([1, 2])[0:0] == V([1, 2])[0:0], "Vector([]) == 1": lambda T, V: V([]) == 1,
+    "-Table({})": lambda T, V: -T({}), "2 + Table({})": lambda T, V: 2 + T({}), "Table({}).T": lambda T, V: T({}).T,
+    "Vector(Vector([]))": lambda T, V: V(V([])), "Vector.new(None, 0)": lambda T, V: V.new(None, 0),
+}
+
+
+def _derived(spec):
+    """the result of a library operation on degenerate operands is a vector / table like any other: repr returns a string, the
+    schema is a schema, a name is None or a str"""
+    from serif import Table, Vector
+    import warnings
+    expr = spec["expr"]
+    with warnings.catch_warnings():
+        warnings.simplefilter("ignore")
+        try:
+            r = DERIVED[expr](Table, Vector)
+        except Exception as e:
+            return {"skip": f"{expr} raised {type(e).__name__}"}
+        w = {"fam": "derived", "case": {"expr": expr}, "impl": {}}
+        if not isinstance(r, Vector):
+            return {"skip": "not a vector or table"}
+        try:
+            text = repr(r)
+            if not isinstance(text, str):
+                w["py_fail"] = f"repr({expr}) returned {type(text).__name__}"
+        except Exception as e:
+            w["py_fail"] = f"repr({expr}) raised {type(e).__name__}: {str(e)[:80]}"
+            return w
+        nm = getattr(r, "name", None)
+        if nm is not None and not isinstance(nm, (str, int, float, tuple)):
+            w["py_fail"] = f"the result of {expr} is named {nm!r}, which is not a name"
+        cols = r.cols() if isinstance(r, Table) else [r]
+        for c in cols:
+            sc = c.schema() if isinstance(c, Vector) else None
+            if sc is not None and not isinstance(getattr(sc, "kind", None), type):
+                w["py_fail"] = f"the result of {expr} reports a dtype whose kind is {getattr(sc, 'kind', None)!r}, not a class"
+    return w
+
+
 def generate(rng, tier):
     thorough = tier == "thorough"
+    for expr in DERIVED:
+        yield {"fam": "derived", "expr": expr}
     # 1. vectors: dtype family x length around the limit x setting x None x name
     for rep in range(2 if not thorough else 8):
         for rows in ROWS:
@@ -336,6 +383,8 @@ def _globals(display):
 
 
 def execute(spec):
+    if spec["fam"] == "derived":
+        return _derived(spec)
     import serif
     from serif import Table, set_repr_rows
     import serif.display as display
@@ -427,10 +476,14 @@ def _features(spec, wire):
 
 
 def nontrivial(spec, wire):
+    if spec["fam"] == "derived":
+        return True
     return bool(_features(spec, wire))
 
 
 def histogram(spec, wire):
+    if spec["fam"] == "derived":
+        return ["derived"]
     c = wire["case"]
     cols = c["cols"]
     n = len(cols[0]["cells"]) if cols else 0
@@ -450,6 +503,8 @@ def histogram(spec, wire):
 
 
 def shrink(spec):
+    if spec["fam"] == "derived":
+        return
     cols = spec["cols"]
     if spec["fam"] == "table":
         for i in range(len(cols)):
@@ -475,6 +530,8 @@ def shrink(spec):
 
 
 def snippet(spec):
+    if spec["fam"] == "derived":
+        return "from serif import Vector, Table\nr = " + spec["expr"] + "   # (t = a small table)\nprint(repr(r), r.name)"
     lines = ["from serif import Vector, Table, set_repr_rows", "import datetime"]
     def mk(cs):
         vals = "[" + ", ".join("10**400" if c == "iHuge" else repr(decode(c)) for c in cs["vals"]) + "]"
